@@ -412,7 +412,7 @@ def main():
     setarch = have_setarch()
 
     # ---- designs -------------------------------------------------------------------------------
-    ngen = 1500 if thorough else 40
+    ngen = 900 if thorough else 40
     nbuilds = 5 if thorough else 4
     nshuffle = 5 if thorough else 3
     cycles = 24 if thorough else 12
